@@ -2,9 +2,11 @@
 ibldsp.waveform_extraction.extract_wfs_cbin / WaveformsLoader and
 ibldsp.utils.make_channel_index on synthetic recordings whose value encodes
 (sample, channel)."""
+import contextlib
 import hashlib
 import json
 import shutil
+import signal
 import warnings
 from fractions import Fraction
 from pathlib import Path
@@ -37,6 +39,43 @@ TRUSTED = [
 # --------------------------------------------------------------------------
 # implementation runner
 # --------------------------------------------------------------------------
+class ImplTimeout(BaseException):
+    pass
+
+
+@contextlib.contextmanager
+def time_limit(seconds):
+    """A hang of the implementation (dead-locked workers, endless loop) becomes an exception."""
+    def onalarm(signum, frame):
+        raise ImplTimeout("no result after %d s" % seconds)
+    try:
+        old = signal.signal(signal.SIGALRM, onalarm)
+    except ValueError:                      # not in the main thread: no watchdog
+        yield
+        return
+    signal.setitimer(signal.ITIMER_REAL, seconds)
+    try:
+        yield
+    finally:
+        signal.setitimer(signal.ITIMER_REAL, 0)
+        signal.signal(signal.SIGALRM, old)
+
+
+HUNG = []        # once the implementation has hung, the remaining runs are skipped (one failing input is enough)
+
+
+def kill_workers():
+    try:
+        from joblib.externals.loky import get_reusable_executor
+        get_reusable_executor().shutdown(wait=False, kill_workers=True)
+    except Exception:  # noqa
+        pass
+
+
+def err_text(e):
+    return "%s: %s" % (type(e).__name__, str(e)[:200])
+
+
 class RecRng:
     """Wraps the Generator the implementation creates; records what choice() returned."""
 
@@ -87,23 +126,36 @@ def impl_extract(case, binf, size, n_jobs, out):
     real = np.random.default_rng
     np.random.default_rng = lambda *a, **k: RecRng(real(*a, **k), log)
     obs = {"size": size, "n_jobs": n_jobs}
+    if HUNG:
+        obs.update({"error": "skipped: the implementation hung on an earlier input", "picks": [], "skipped": True})
+        np.random.default_rng = real
+        return obs
+    keep = [a.copy() for a in (ss, sc, sch)]
+    bin_sha = hashlib.sha256(Path(binf).read_bytes()).hexdigest()
     try:
-        with warnings.catch_warnings():
+        with warnings.catch_warnings(), time_limit(60):
             warnings.simplefilter("ignore")
             we.extract_wfs_cbin(
                 binf, out, ss, sc, sch, h=(None if case.get("h_none") else h),
                 reader_kwargs={"ns": ns, "nc": nc + 1, "nsync": 1, "dtype": "float32", "fs": 30000},
                 max_wf=case["maxwf"], trough_offset=case["to"], spike_length_samples=case["L"],
                 chunksize_samples=size, n_jobs=n_jobs, preprocess_steps=[], seed=case["seed"])
-    except Exception as e:  # noqa
-        obs["error"] = "%s: %s" % (type(e).__name__, str(e)[:200])
-        obs["picks"] = log
+    except BaseException as e:  # noqa  (SystemExit / KeyboardInterrupt raised by the code under test included)
+        if isinstance(e, ImplTimeout):
+            HUNG.append(1)
+            kill_workers()
+        obs["error"] = err_text(e)
+        obs["picks"] = [p for p in log if isinstance(p, list)]
         return obs
     finally:
         np.random.default_rng = real
     obs["picks"] = log
+    obs["inputs_modified"] = [n for n, a, b in zip(("spike_samples", "spike_clusters", "spike_channels"), (ss, sc, sch), keep)
+                              if not (a.dtype == b.dtype and np.array_equal(a, b))]
+    if hashlib.sha256(Path(binf).read_bytes()).hexdigest() != bin_sha:
+        obs["inputs_modified"].append("the recording file")
     try:
-        with warnings.catch_warnings():
+        with warnings.catch_warnings(), time_limit(120):
             warnings.simplefilter("ignore")
             tb = pd.read_parquet(out / "waveforms.table.pqt")
             obs["table_cols"] = list(tb.columns)
@@ -113,9 +165,14 @@ def impl_extract(case, binf, size, n_jobs, out):
             obs["traces"] = np.array(np.load(out / "waveforms.traces.npy"))
             obs["channels"] = np.load(out / "waveforms.channels.npz")["channels"].astype(np.int64)
             obs["templates"] = np.load(out / "waveforms.templates.npy")
+            for k in ("traces", "channels", "templates"):
+                if not isinstance(obs[k], np.ndarray) or obs[k].dtype.kind not in "fiu":
+                    raise TypeError("%s file holds %r" % (k, getattr(obs[k], "dtype", type(obs[k]))))
             obs.update(loader_sequence(we, case, out, obs))
-    except Exception as e:  # noqa
-        obs["error"] = "reading back: %s: %s" % (type(e).__name__, str(e)[:200])
+    except BaseException as e:  # noqa
+        if isinstance(e, ImplTimeout):
+            HUNG.append(1)
+        obs["error"] = "reading back / loading: " + err_text(e)
     return obs
 
 
@@ -144,7 +201,7 @@ def scribble(wfs, info, chans):
     for a, v in ((wfs, -12345.0), (chans, -9)):
         try:
             a[...] = v
-        except (ValueError, TypeError):
+        except Exception:  # noqa
             pass
     if info is not None:
         try:
@@ -170,7 +227,12 @@ def loader_sequence(we, case, out, obs):
             del wl
             wl = we.WaveformsLoader(out, trough_offset=case["to"])
         la, ia = loader_args(case, lab, ind)
-        wfs, info, chans = wl.load_waveforms(labels=la, indices=ia)
+        ret = wl.load_waveforms(labels=la, indices=ia)
+        if not (isinstance(ret, tuple) and len(ret) == 3):
+            raise TypeError("load_waveforms returned %s instead of (waveforms, info, channels)" % type(ret).__name__)
+        wfs, info, chans = ret
+        if not (isinstance(wfs, np.ndarray) and isinstance(chans, np.ndarray) and isinstance(info, pd.DataFrame)):
+            raise TypeError("load_waveforms returned (%s, %s, %s)" % (type(wfs).__name__, type(info).__name__, type(chans).__name__))
         rows = [int(x) for x in info.index]
         res["seq_calls"] += 1
         if step < 4:
@@ -186,9 +248,9 @@ def loader_sequence(we, case, out, obs):
                                   "(after in-place edits of earlier results)" % (step, name))
         scribble(wfs, info, chans)
         wfs2 = wl.load_waveforms(labels=la, indices=ia, return_info=False)
-        if not nan_eq(wfs2, snap_tr[rows]):
+        if not isinstance(wfs2, np.ndarray) or not nan_eq(wfs2, snap_tr[rows]):
             res["seq_bad"].append("call %d (%s): repeated load differs from the saved rows" % (step, name))
-        scribble(wfs2, None, wfs2[:0])
+        scribble(wfs2, None, None)
     del wl
     if file_hashes(out) != h0:
         res["seq_bad"].append("the output files changed on disk during a sequence of load_waveforms calls")
@@ -211,7 +273,10 @@ def ref_neighbours(geom, r2n=40000, r2d=1, padv=None):
 
 
 def nan_eq(a, b):
-    a, b = np.asarray(a, dtype=np.float64), np.asarray(b, dtype=np.float64)
+    try:
+        a, b = np.asarray(a, dtype=np.float64), np.asarray(b, dtype=np.float64)
+    except Exception:  # noqa  (ragged lists, objects ...)
+        return False
     return a.shape == b.shape and bool(np.all((a == b) | (np.isnan(a) & np.isnan(b))))
 
 
@@ -307,6 +372,8 @@ def oracle(case, obs, data):
             bad.append(("loader", "load_waveforms(%s) selected rows %s, expected %s" % (name, obs["rows_" + name][:8], exp_rows[:8])))
     for w in obs["seq_bad"]:
         bad.append(("loader_sequence", w))
+    for w in obs.get("inputs_modified", []):
+        bad.append(("inputs", "extract_wfs_cbin modified %s in place" % w))
     return bad
 
 
@@ -483,7 +550,13 @@ def gen_chanidx_case(rng):
 def impl_chanidx(c):
     from ibldsp.utils import make_channel_index
     g = np.array(c["geom"], dtype=float).reshape(-1, 2)
+    g0 = g.copy()
     ci = make_channel_index(g, radius=c["r2"] / 2.0, pad_val=c["padv"])
+    if not isinstance(ci, np.ndarray) or ci.ndim != 2 or ci.dtype.kind not in "iu":
+        raise TypeError("make_channel_index returned %s%s instead of a 2-D integer array" % (
+            type(ci).__name__, (" of dtype %s, shape %s" % (ci.dtype, ci.shape)) if isinstance(ci, np.ndarray) else ""))
+    if not np.array_equal(g, g0):
+        raise ValueError("make_channel_index modified the geometry array in place")
     return [int(ci.shape[0]), int(ci.shape[1])] + [int(x) for x in ci.ravel()]
 
 
@@ -555,14 +628,38 @@ def impl_array(c):
     arr, nb, nan_row, stride = array_setup(c)
     df = pd.DataFrame({"sample": np.array(c["samples"], dtype=c["df_dtype"]),
                        "peak_channel": np.array(c["peaks"], dtype=c["df_dtype"])})
+    nbarr = np.array(nb, dtype=int)
+    arr0, df0, nb0 = arr.copy(), df.copy(), nbarr.copy()
     try:
-        with warnings.catch_warnings():
+        with warnings.catch_warnings(), time_limit(60):
             warnings.simplefilter("ignore")
-            wfs, cind, to_ret = extract_wfs_array(arr, df, np.array(nb, dtype=int), trough_offset=c["to"],
-                                                  spike_length_samples=c["L"], add_nan_trace=c["add_nan"])
-    except Exception as e:  # noqa
-        return {"error": "%s: %s" % (type(e).__name__, str(e)[:120])}
-    return {"wfs": np.asarray(wfs), "cind": np.asarray(cind).astype(np.int64), "to": int(to_ret)}
+            ret = extract_wfs_array(arr, df, nbarr, trough_offset=c["to"],
+                                    spike_length_samples=c["L"], add_nan_trace=c["add_nan"])
+    except BaseException as e:  # noqa
+        return {"error": err_text(e)}
+    obs = {"shape_bad": None, "modified": []}
+    if not nan_eq(arr, arr0):
+        obs["modified"].append("the source array")
+    if not df.equals(df0):
+        obs["modified"].append("df")
+    if not np.array_equal(nbarr, nb0):
+        obs["modified"].append("channel_neighbors")
+    if not (isinstance(ret, tuple) and len(ret) == 3):
+        obs["shape_bad"] = "returned %s instead of (wfs, cind, trough_offset)" % type(ret).__name__
+        return obs
+    wfs, cind, to_ret = ret
+    if not (isinstance(wfs, np.ndarray) and wfs.ndim == 3 and wfs.dtype.kind in ("f" if c["add_nan"] else "fiu")):
+        obs["shape_bad"] = "waveform stack is %s%s, expected a 3-D numeric array (float when a NaN row is added)" % (
+            type(wfs).__name__, (" dtype %s shape %s" % (wfs.dtype, wfs.shape)) if isinstance(wfs, np.ndarray) else "")
+        return obs
+    if not (isinstance(cind, np.ndarray) and cind.ndim == 2 and cind.dtype.kind in "iu") or \
+            not isinstance(to_ret, (int, np.integer)):
+        obs["shape_bad"] = "channel indices / offset are %s / %s" % (type(cind).__name__, type(to_ret).__name__)
+        return obs
+    if np.shares_memory(wfs, arr):
+        obs["modified"].append("(result is a view of the source array)")
+    obs.update({"wfs": wfs, "cind": cind.astype(np.int64), "to": int(to_ret)})
+    return obs
 
 
 def oracle_array(c, obs):
@@ -571,7 +668,9 @@ def oracle_array(c, obs):
     ns, to, L = c["ns"], c["to"], c["L"]
     if "error" in obs:
         return ["extract_wfs_array raised %s on spikes whose windows lie inside the array" % obs["error"]]
-    bad = []
+    if obs["shape_bad"]:
+        return ["extract_wfs_array " + obs["shape_bad"]]
+    bad = ["extract_wfs_array modified %s" % m for m in obs["modified"]]
     n, nnb = len(c["samples"]), len(nb[0])
     if obs["wfs"].shape != (n, nnb, L):
         return ["waveform stack has shape %s, expected %s" % (obs["wfs"].shape, (n, nnb, L))]
@@ -604,6 +703,8 @@ def enc_array_inp(c):
 def enc_array_obs(c, obs):
     if "error" in obs:
         return [0]
+    if obs["shape_bad"]:
+        return [-998]
     w = obs["wfs"]
     return [1, w.shape[0], w.shape[1], w.shape[2]] + enc_cells(w) + [int(x) for x in obs["cind"].ravel()]
 
@@ -642,6 +743,8 @@ def run_case(ctx, case, work, jobs_for, inputs, outputs, descs, stats):
         stats["n_jobs"][n_jobs] = stats["n_jobs"].get(n_jobs, 0) + 1
         nchunks = -(-ns // size)
         stats["chunks"].append(nchunks)
+        if obs.get("skipped"):
+            continue
         if "error" in obs:
             stats["errors"] += 1
             expected_bad = case.get("malformed")
@@ -654,15 +757,24 @@ def run_case(ctx, case, work, jobs_for, inputs, outputs, descs, stats):
             stats["out_of_domain_no_exception"] = stats.get("out_of_domain_no_exception", 0) + 1
         else:
             stats["loader_calls"] = stats.get("loader_calls", 0) + 2 * obs["seq_calls"]
-            for kind, what in oracle(case, obs, data):
-                ctx.fail(what, desc, {"kind": kind})
-            if first is None:
-                first = obs
-            elif not same_files(first, obs):
-                ctx.fail("output files differ between chunk size %d / n_jobs %d and chunk size %d / n_jobs %d"
-                         % (first["size"], first["n_jobs"], size, n_jobs), desc, {"kind": "chunking"})
-        inputs.append(enc_inp(case, size, obs["picks"]))
-        outputs.append(enc_obs(obs))
+            try:
+                for kind, what in oracle(case, obs, data):
+                    ctx.fail(what, desc, {"kind": kind})
+                if first is None:
+                    first = obs
+                elif not same_files(first, obs):
+                    ctx.fail("output files differ between chunk size %d / n_jobs %d and chunk size %d / n_jobs %d"
+                             % (first["size"], first["n_jobs"], size, n_jobs), desc, {"kind": "chunking"})
+            except Exception as e:  # noqa  the files are so malformed that the oracle cannot read them
+                ctx.fail("output files cannot be interpreted (%s)" % err_text(e), desc, {"kind": "malformed_output"})
+        try:
+            enc_o = enc_obs(obs)
+            enc_i = enc_inp(case, size, obs["picks"])
+        except Exception as e:  # noqa
+            ctx.fail("output files cannot be encoded (%s)" % err_text(e), desc, {"kind": "malformed_output"})
+            enc_o, enc_i = [-998], enc_inp(case, size, [])
+        inputs.append(enc_i)
+        outputs.append(enc_o)
         descs.append(desc)
         if outdir.name != "shared_out":
             shutil.rmtree(outdir, ignore_errors=True)
@@ -715,9 +827,14 @@ def out_of_domain_cases(rng, cid0, n):
 
 
 def run(ctx):
-    common.proof_obligations(ctx, whitelist=[])
+    # Props: integers/lists only, must stay closed under the global context; PropsFloat: the one Flocq
+    # theorem (binary64 sqrt test of make_channel_index), inherits the standard-library real-number axioms
+    common.proof_obligations(ctx, whitelist=sorted(common.STDLIB_AXIOMS), modules=("Props", "PropsFloat"))
+    for n in common.theorem_names(common.COQ / PROP / "Props.v"):
+        if n in ctx.theorems and ctx.theorems[n] != "Closed under the global context":
+            ctx.broken_proofs.append({"theorem": n, "why": "no longer closed under the global context: %s" % ctx.theorems[n]})
     rng = ctx.rng
-    ncases = 220 if ctx.thorough() else 36
+    ncases = 220 if ctx.thorough() else 28
     cases = [gen_case(rng, i) for i in range(ncases)]
     bigs = [{"version": 1}, {"version": 2}, {"version": 2, "nshank": 4}]
     for b in (bigs if ctx.thorough() else [bigs[rng.randrange(3)]]):
@@ -755,13 +872,18 @@ def run(ctx):
             pass
 
     # make_channel_index alone, other radii / pad values
-    nci = 1500 if ctx.thorough() else 250
+    nci = 1500 if ctx.thorough() else 180
     ci_cases = [gen_chanidx_case(rng) for _ in range(nci)]
     for c in ci_cases:
+        if HUNG:
+            break
         try:
-            got = impl_chanidx(c)
-        except Exception as e:  # noqa
-            ctx.fail("make_channel_index raised %r" % (e,), c, {"kind": "exception", "class": "chanidx"})
+            with time_limit(60):
+                got = impl_chanidx(c)
+        except BaseException as e:  # noqa
+            if isinstance(e, ImplTimeout):
+                HUNG.append(1)
+            ctx.fail("make_channel_index: %s" % err_text(e), c, {"kind": "exception", "class": "chanidx"})
             continue
         exp = ref_neighbours(c["geom"], c["r2"] * c["r2"], 4, c["padv"])
         if got != [len(exp), len(exp[0])] + [x for r in exp for x in r]:
@@ -774,17 +896,24 @@ def run(ctx):
             nontrivial.add(json.dumps(c, sort_keys=True))
 
     # extract_wfs_array called directly: dtypes, memory order, add_nan_trace, probe ends, radii
-    narr = 1500 if ctx.thorough() else 220
+    narr = 1500 if ctx.thorough() else 160
     arr_cases = [gen_array_case(rng) for _ in range(narr)]
     arr_cases += [gen_array_case(rng, big=b) for b in (bigs * (3 if ctx.thorough() else 1))]
     arr_stats = {}
     for c in arr_cases:
+        if HUNG:
+            break
         obs = impl_array(c)
+        if "ImplTimeout" in obs.get("error", ""):
+            HUNG.append(1)
         key = "%s/%s/%s" % (c["dtype"], c["order"], "add_nan" if c["add_nan"] else "has_nan_row")
         arr_stats[key] = arr_stats.get(key, 0) + 1
         if c["kind"] == "valid":
             for what in oracle_array(c, obs):
                 ctx.fail(what, c, {"kind": "array"})
+        elif "error" not in obs and (obs["shape_bad"] or obs["modified"]):
+            ctx.fail("extract_wfs_array " + (obs["shape_bad"] or "modified " + ", ".join(obs["modified"])), c, {"kind": "array"})
+        if c["kind"] == "valid":
             if len({tuple(r) for r in ref_neighbours(c["geom"], c["r2"] * c["r2"], 4, len(c["geom"]))}) > 1:
                 nontrivial.add(json.dumps(c, sort_keys=True))
         inputs.append(enc_array_inp(c))
@@ -796,7 +925,8 @@ def run(ctx):
     ex = [d for d in descs if "spikes" in d]
     samples = [{k: (v if k != "spikes" else v[:6]) for k, v in d.items() if k != "geom"} for d in ex[:: max(1, len(ex) // 5)]][:6]
     dist = {"extractions": nrun, "cases": len(cases), "n_jobs": {str(k): v for k, v in sorted(stats["n_jobs"].items())},
-            "chunks_min": min(stats["chunks"]), "chunks_max": max(stats["chunks"]),
+            "chunks_min": min(stats["chunks"] or [0]), "chunks_max": max(stats["chunks"] or [0]),
+            "implementation_hung": bool(HUNG),
             "implementation_raised": stats["errors"], "channel_index_cases": len(ci_cases),
             "spike_samples_dtype": {k: sum(1 for c in cases if c["dt"][0] == k) for k in ("int64", "uint64", "int32", "uint32")},
             "unsigned_cluster_or_channel_dtype": sum(1 for c in cases if c["dt"][1][0] == "u" or c["dt"][2][0] == "u"),
